@@ -270,6 +270,27 @@ pub fn valid_proto(s: &mut Src, o: &ProtoOpts) -> Vec<Rec> {
             p.push(Rec { prefix: Some(prefix), name, ty });
         }
     }
+    // degenerate but rule-following: every record has a fixed value (min == max)
+    if s.chance(1, 25) {
+        for r in p.iter_mut() {
+            let v = *s.pick(&[0i64, 1, -7, i64::MAX, i64::MIN, 255]);
+            let fixed_int = matches!(r.name.as_str(), "cartesianInvalidState" | "sphericalInvalidState" | "isColorInvalid" | "isIntensityInvalid" | "isTimeStampInvalid");
+            if fixed_int {
+                continue;
+            }
+            let must_int = matches!(r.name.as_str(), "rowIndex" | "columnIndex" | "returnCount" | "returnIndex");
+            r.ty = if !must_int && (matches!(r.name.as_str(), "sphericalAzimuth" | "sphericalElevation") || s.flag()) {
+                let (scale, offset) = scale_offset(s);
+                RType::Scaled { min: v, max: v, scale: F64(scale), offset: F64(offset) }
+            } else {
+                RType::Int { min: v, max: v }
+            };
+        }
+        // invalid-state records keep their mandated 0..1 / 0..2 range, so drop them to get an all-fixed prototype
+        if s.flag() {
+            p.retain(|r| !matches!(r.name.as_str(), "cartesianInvalidState" | "sphericalInvalidState" | "isColorInvalid" | "isIntensityInvalid" | "isTimeStampInvalid"));
+        }
+    }
     // order is free: shuffle
     for i in (1..p.len()).rev() {
         let j = s.below(i as u64 + 1) as usize;
@@ -419,6 +440,23 @@ pub fn xml_string(s: &mut Src) -> String {
             }
             o
         }
+    }
+}
+
+pub fn limit_val(s: &mut Src) -> LimitVal {
+    match s.weighted(&[3, 2, 2, 1]) {
+        0 => LimitVal::I(*s.pick(&[0i64, 1, 255, 65535, -1, i64::MIN, i64::MAX, 1000])),
+        1 => LimitVal::D(F64(f64_any(s))),
+        2 => LimitVal::S(F32(f32_any(s))),
+        _ => LimitVal::SI(s.range(-1000, 70000)),
+    }
+}
+
+/// Extension namespace URI: any non-empty string XML can carry.
+pub fn ext_url(s: &mut Src, prefix: &str) -> String {
+    match s.weighted(&[3, 2]) {
+        0 => format!("http://example.com/{}/{}", prefix, s.below(1000)),
+        _ => format!("http://example.com/{prefix}?a=1{}", xml_string(s)),
     }
 }
 
